@@ -48,8 +48,10 @@ def _pool(seed, n):
         texts.append(" ".join(toks[::-1]))
         texts.append(" ".join(toks[1:] + toks[:1]))
     corp = T.corpus_texts()
+    from . import streams as S
+    cov = [e["t"] for e in S.cov_entries()] or corp
     while len(texts) < n:
-        texts.append(r.choice([G.expression(r)[1], r.choice(corp), T.soup(r)]))
+        texts.append(r.choice([G.expression(r)[1], r.choice(corp), T.soup(r), r.choice(cov)]))
     tss = ["2021-03-10T12:43:30", "2020-02-29T23:59:59.999999", "2019-12-31T08:00:00", "2024-02-28T23:10:00"]
     entries = []
     for i, t in enumerate(texts):
